@@ -81,9 +81,9 @@ def vertex_to_edge_operator(mesh : Mesh, oriented:bool = False) -> sp.csc_matrix
 @allowed_mesh_types(SurfaceMesh)
 def vertex_to_face_operator(mesh : SurfaceMesh) -> sp.csc_matrix:
     """
-    Vertices to face operator. Matrix M of size |V| x |F| where:
+    Vertices to face operator. Matrix M of size |F| x |V| where:
 
-        M[v,f] = 1/len(f) if and only if v is one of the vertices of f
+        M[f,v] = 1/len(f) if and only if v is one of the vertices of f
 
     Args:
         mesh (SurfaceMesh): input surface mesh
